@@ -1,7 +1,7 @@
 (* C06 — garbage collectors running concurrently never disturb callers (partial: what is proved is the per-step
    stutter property the concurrent argument rests on; see DESIGN.md for what is missing). *)
 From Coq Require Import List NArith.
-From STH Require Import Log Lex Index Store IndexStore GCIndex Refine GInv PGC5 Keep Crash2 Conc Conc2 ConcEx.
+From STH Require Import Log Lex Index Store IndexStore GCIndex Refine GInv PGC5 Keep Crash2 Conc Conc2 ConcEx ConcGC.
 Import ListNotations.
 Open Scope N_scope.
 
@@ -39,8 +39,8 @@ Print Assumptions C06_primary_gc_keeps_records_not_on_the_freelist_file.
    specification map answered at its linearization point (a GC step never changes the map), and the shared state stays related
    to the map: no call fails, loses or resurrects a key because a cycle marked, merged, truncated or unlinked underneath it.
    Missing relative to the full property: the steps inside the reaping of ONE file (per-record busy checks: freedom of an index
-   record is monotone, so a check made earlier only keeps more), and primary GC cycles as threads (their per-cycle stutter
-   theorems are above; the relocation's compare-and-swap is exercised by the scheduler on the real code). ---- *)
+   record is monotone, so a check made earlier only keeps more), and primary GC cycles as threads of THIS model (their per-cycle
+   stutter theorems are above; as threads they are in the location-protocol model below). ---- *)
 Theorem C06_callers_and_index_gc_cycles_are_linearizable :
   forall imm bits (U : bytes -> Prop), unrelated bits U ->
   forall s m calls sched, init_ok2 bits U s m calls ->
@@ -61,3 +61,41 @@ Theorem C06_a_cycle_between_callers :
   | _, _ => False end.
 Proof. exact cycle_between_callers. Qed.
 Print Assumptions C06_a_cycle_between_callers.
+
+(* ---- PRIMARY GC cycles as THREADS: the location protocol (ConcGC.v).  Abstract keys, values and locations; a location is written once at
+   the frontier and later only marked dead.  Callers: Get looks the key up, reads the location later and, when the record there is not
+   usable, asks the index again (it removes the entry only if the index still has that location - shown unreachable); Put and Remove hold
+   the key lock, publish by insert / compare-and-swap / compare-and-remove, and when the swap fails free the record they wrote and start
+   over.  Collectors ([APgc n reloc]): take ANY prefix of the freelist, mark its entries dead one per step, copy ANY candidate records to
+   fresh locations and re-point their keys by compare-and-swap, freeing the old location on success and the copy on failure.
+   For ANY number of callers and collectors and ANY schedule: the index never names a location that is not live (SInv), every call that
+   has returned returned what the map answered at a linearization point inside the call, and no call failed.
+   Missing relative to the full property: this model has no write pools, no Flush, no file layout and no prefix matching (those are in
+   Conc2.v, where index GC cycles are threads); the two models are tied to the code separately (replay of real schedules on each, the
+   regenerated skeleton facts) and no refinement between them is proved. ---- *)
+Theorem C06_callers_and_primary_gc_cycles_are_linearizable :
+  forall s m calls sched, QInv s m ->
+    let '(s', m', ps) := aexec (s, m, map AStart calls) sched in
+    SInv s' m' /\ forall t r lin, nth_error ps t = Some (ADone r lin) -> r = lin /\ r <> AErr.
+Proof. exact gc_linearizable. Qed.
+Print Assumptions C06_callers_and_primary_gc_cycles_are_linearizable.
+
+(* the runs the replay uses ("run thread t until it has looked up / appended / handed over / marked / copied / returned") are schedules *)
+Theorem C06_tagged_runs_keep_the_invariant :
+  forall sched c, AInv c -> AInv (aexec_tags c sched).
+Proof. exact aexec_tags_inv. Qed.
+Print Assumptions C06_tagged_runs_keep_the_invariant.
+
+(* non-vacuity, and the two schedules on which the real code failed before its repairs (ca4bd7c, 3cdde23) *)
+Theorem C06_reader_across_overwrite_and_gc :
+  let '(s0, m0) := run_calls aempty (fun _ => None) [APut 7 10] in
+  let '(s', m', ps) := aexec (s0, m0, map AStart [AGet 7; APut 7 11; APgc 5 []]) [0; 1; 1; 1; 1; 2; 2; 2; 0; 0; 0]%nat in
+  ps = [ADone (AVal (Some 11)) (AVal (Some 11)); ADone AOk AOk; AGcRel []] /\ aget 0 (apri s') = Some ADead.
+Proof. exact reader_across_overwrite_and_gc. Qed.
+Print Assumptions C06_reader_across_overwrite_and_gc.
+Theorem C06_writer_across_relocation :
+  let '(s0, m0) := run_calls aempty (fun _ => None) [APut 7 10] in
+  let '(s', m', ps) := aexec (s0, m0, map AStart [APut 7 11; APgc 0 [0]]) [0; 0; 0; 1; 1; 1; 1; 0; 0; 0; 0; 0; 1]%nat in
+  ps = [ADone AOk AOk; ADone AOk AOk] /\ aget 7 (aidx s') = Some 3 /\ afree s' = [0; 1; 2] /\ m' 7 = Some 11.
+Proof. exact writer_across_relocation. Qed.
+Print Assumptions C06_writer_across_relocation.
